@@ -109,3 +109,20 @@ PROPS["C15"] = dict(
     min_labels=dict(quick=dict(at_limit=10000, one_over=10000, below_limit=10000, hostile_deep=2000, from_fd_ex=2000, refused_depth=1000)),
     assumptions=["D <= 2000", "the accepted window for the error offset runs from the end of the preceding token to one byte past the first byte of the first too-deep value"],
 )
+
+PROPS["C16"] = dict(
+    harness="C16_strict.cpp", level="exploration",
+    technique="metamorphic property testing: valid generated document + one documented extension injected at every syntactically possible position (enumerated from the reference lexer's token spans); strict / strict|allow-trailing / default outcomes compared with the original value",
+    level_text="for every generated valid document all (extension kind, position) pairs are produced - comments at every inter-token position, "
+               "single-quoted values and names, trailing commas, every non-lowercase literal variant, raw control bytes in strings and names, "
+               "leading zeros on every number form, exponent markers without digits, trailing bytes - and each must be rejected in strict mode and "
+               "accepted in default mode with the original value (value-neutral forms); unmodified documents must pass strict mode (control)",
+    level_note="the original value comes from the independent reference parser; positions are enumerated per document, documents are sampled",
+    rule="one valid document with all its injections (typically 50-400 modified texts x 3 parser modes); non-trivial = some injection lies at depth >= 1, in a member name or at a first/last element; distinct by document hash",
+    quick=[dict(mode="inject", cases=16000, workers=8, maxbytes=1200)],
+    thorough=[dict(mode="inject", cases=1600000, workers=16, maxbytes=2500),
+              dict(mode="inject", fuzz=True, secs=300, jobs=8, max_len=512)],
+    min_labels=dict(quick=dict(block_comment=100000, single_quoted_name=3000, trailing_comma=5000, nonlowercase_literal=5000,
+                               raw_control_char=10000, leading_zero=10000, exponent_without_digits=5000, trailing_bytes=100000)),
+    assumptions=["documents without U+0000 in member names (C01 known finding)", "the trailing-bytes forms are separated by a space from a final number/literal so they cannot extend the value"],
+)
